@@ -317,6 +317,9 @@ class ReadableStream(io.RawIOBase):
             self._done = True
         self._toggle ^= TOGGLE_BIT
         self.pos += length
+        if not length and not self._done:
+            # A segment without data is not the end of the stream
+            return self.read(size)
         return response[1:length + 1]
 
     def readinto(self, b):
